@@ -61,6 +61,8 @@ fn main() {
     "C18" => dispatch!(props::c18::C18),
     "C19" => dispatch!(props::c19::C19),
     "C20" => dispatch!(props::c20::C20),
+    "C22" => dispatch!(props::c22::C22),
+    "C30" => dispatch!(props::c30::C30),
     other => {
       eprintln!("no check for property {other}");
       2
